@@ -6,9 +6,10 @@ for spec in sys.argv[1:]:
     parts = spec.split(":")
     pid, k = parts[0], parts[1]
     checks = parts[2].split(",") if len(parts) > 2 else home_extra.get(pid, [pid])
-    patch = f"/tmp/mut-{pid}/OUT/patch{k}.rebased.diff"
+    od = os.environ.get("OUTDIR", "OUT")
+    patch = f"/tmp/mut-{pid}/{od}/patch{k}.rebased.diff"
     if not os.path.exists(patch):
-        patch = f"/tmp/mut-{pid}/OUT/patch{k}.diff"
+        patch = f"/tmp/mut-{pid}/{od}/patch{k}.diff"
     r = subprocess.run(["/verif/tools/run_mutant.sh", patch] + checks, capture_output=True, text=True)
     for line in r.stdout.strip().splitlines():
         print(f"[{pid}/{k}] {line[:420]}", flush=True)
